@@ -138,6 +138,22 @@ def run(rep, facts, tier):
             n_rd += 1
             ok = fn in LOG_READERS
             why_ok = 'one of the owners of the reverse log'
+            if not ok and evs:
+                # a length mark taken or restored around a build (the rollback of a rejected source, C02 / C10): all the function does
+                # with the log is read its length or cut it back - nothing is read out of it, so nothing can depend on its contents
+                names = {(ev['callee'] or '').rsplit('::', 1)[-1] for ev in evs}
+                # `reverse_log.as_ref().map_or(0, |log| log.len())`: the consumer of the borrowed Option is a closure that only asks the length
+                for bb_, t_ in f.calls():
+                    c_ = callee_of(t_) or ''
+                    if c_.rsplit('::', 1)[-1] in ('map_or', 'map', 'map_or_else') and t_['args'] and 'reverse_log' in expr_str(f.expr_of_operand(t_['args'][0]), -8):
+                        clos = [x[1] for a_ in t_['args'][1:] for x in expr_walk(f.expr_of_operand(a_)) if isinstance(x, tuple) and x[0] == 'closure']
+                        if clos and all(g in fx.fns and {(callee_of(t2) or '').rsplit('::', 1)[-1] for _, t2 in fx.fns[g].calls()} <= {'len'} for g in clos):
+                            names.add('len')
+                        else:
+                            names.add('consumed-by-' + c_.rsplit('::', 1)[-1])
+                if names <= {'as_ref', 'as_mut', 'map_or', 'map', 'len', 'truncate', 'is_some', 'is_none', 'deref', 'deref_mut'} and \
+                        ('len' in names or 'truncate' in names):
+                    ok, why_ok = True, 'takes or restores a length mark of the log (%s): its contents are not read' % ', '.join(sorted(names))
             if not ok and not mutates(fn):
                 rt = f.local_ty(0)
                 callers = fx.callers().get(fn, set())
